@@ -96,6 +96,8 @@ func journalPositions(a *Abs) [][]string {
 	return out
 }
 
+var forgedJournalMessage = strings.Repeat("A", 4200) + " " + strings.Repeat("1234567890", 4) + " Z\tcommit: forged"
+
 func c03Steps(full bool) func(n *Node) []Step {
 	return func(n *Node) []Step {
 		a := n.Abs()
@@ -137,6 +139,8 @@ func c03Steps(full bool) func(n *Node) []Step {
 			Run("restore", "a"), Run("restore", "--staged", "a"), Run("restore", "--staged", "d"), Run("restore", "nope"), Run("commit", "-m", "m"), Run("write-tree")} {
 			add(s)
 		}
+		// a subject that makes the journal line longer than 4 KiB and whose tail is shaped like a journal line naming an object that does not exist
+		add(Run("commit", "-m", forgedJournalMessage), "message-shaped-like-journal-line")
 		if full {
 			steps = append(steps, Write("a", "a v3\n"), Delete("a"), Write("d/x", "d/x v2\n"))
 		} else {
